@@ -31,6 +31,7 @@ func runC09(c *core.Ctx) {
 	ruleStringDecryption(c)
 	ruleStringEncryptionUnconditional(c, "C09-R8")
 	ruleNoArgMutation(c, "C09-R9") // encrypting a string must not corrupt the value for its next use
+	ruleInStreamGuards(c, "C09-R10") // strings are encrypted under the key of the object they belong to
 }
 
 func isKeyField(info *types.Info, e ast.Expr) bool {
